@@ -108,6 +108,8 @@ finding(["C16"], "L3", "tensor.Copy@copyDense(%dt, %ts) ⊨ %ts.DataOrder().HasS
 finding(["C16"], "L4", "tensor.ToMat64@mat.NewDense( ?$t.DataOrder().IsColMajor()", "ToMat64 hands column-major storage to the row-major mat.Dense", "without a test of $t.DataOrder().IsColMajor()", 18)
 
 FIXED = [
+ {"property":"C16","commit":"af2eeb1","rule":"LD","key":"tensor.(StdEng).MatMul[26 of the 32 combinations of operand/result data order and lazy transposition]","what":"fixed: property=C16 af2eeb1 StdEng.MatMul took its BLAS transposition flags from the lazy-transpose state only and swapped the operands when both were column-major instead of when the result is: a column-major A times a row-major B (or any result whose order differs from the operands', or two column-major operands of which one is lazily transposed) multiplied the wrong matrices - silently for square operands, BLAS panic 'bad leading dimension' otherwise (DESIGN finding 47)"},
+ {"property":"C09","commit":"af2eeb1","rule":"LD","key":"tensor.(StdEng).MatMul[A:col,A:lazyT,B:col,B:plain,C:col] and 25 more","what":"fixed: property=C09 af2eeb1 same defect seen from C09: MatMul(aColMajor.T(), bColMajor) computed with both flags applied to the wrong operand (DESIGN finding 47)"},
  {"property":"C15","commit":"08e30d7","rule":"E1","key":"tensor.(*Dense).Filled#1, tensor.(*Dense).FilledInplace#1","what":"fixed: property=C15 08e30d7 Filled/FilledInplace vector arm tested err != nil (nothing filled on success, nil dereference on failure) and sliced column vectors along the unit axis (DESIGN finding 39)"},
  {"property":"C04","commit":"de90854","rule":"L1","key":"tensor.(*Dense).Zero@$r.array.Zero()","what":"fixed: property=C04 de90854 Dense.Zero on a view fell through to the raw array.Zero(): a[:,1].Zero() on a 3x3 tensor zeroed 7 parent cells (DESIGN finding 4)"},
  {"property":"C20","commit":"7b98fe7","rule":"L2","key":"tensor.(Float64Engine).FMAScalar, tensor.(Float32Engine).FMAScalar","what":"fixed: property=C20 7b98fe7 FMAScalar's iterator branch fell through to the raw kernel: result doubled (DESIGN finding 20)"},
